@@ -1247,7 +1247,7 @@ func (vc *VC) exec(st *State, ins ssa.Instruction) error {
 		_ = sortC
 		if isStructLike(fld.Type()) {
 			// nested struct stored in place: identify its storage by a sub-object ref
-			f := vc.declareFun("sub_"+comp, []string{"Int"}, "Int")
+			f := vc.subFun(comp)
 			a = &Addr{Kind: "obj", Ref: sx(f, base), Typ: fld.Type(), Sub: true}
 		}
 		vc.addrs[x] = a
@@ -1257,7 +1257,7 @@ func (vc *VC) exec(st *State, ins ssa.Instruction) error {
 		base := vc.val(st, x.X)
 		comp, sortC, fld := vc.fieldCompOf(x.X.Type(), x.Field)
 		if isStructLike(fld.Type()) {
-			f := vc.declareFun("sub_"+comp, []string{"Int"}, "Int")
+			f := vc.subFun(comp)
 			vc.setVal(x, sx(f, base))
 		} else {
 			vc.setVal(x, sx("select", vc.heapGet(st, comp, sortC), base))
@@ -1334,7 +1334,18 @@ func (vc *VC) exec(st *State, ins ssa.Instruction) error {
 	case *ssa.DebugRef:
 	case *ssa.Go:
 		vc.unsupp["go statement"] = true
+		// the ghost counters behind ncalls()/nsends()/ndone() count what THIS activation did: a goroutine started here
+		// cannot change them, everything else is forgotten
+		keep := map[string]string{}
+		for c, v := range st.heap {
+			if strings.HasPrefix(c, "N_") {
+				keep[c] = v
+			}
+		}
 		vc.havocAll(st, "go statement")
+		for c, v := range keep {
+			st.heap[c] = v
+		}
 	case *ssa.Send:
 		// a channel send changes no modelled state (channel buffers are not modelled, blocking is not modelled): it is
 		// counted by the ghost counter behind nsends() and can carry site assertions (at send chan#n: arg0 = channel, arg1 = value)
@@ -1423,7 +1434,7 @@ func (vc *VC) zeroStruct(st *State, ty types.Type, r string) {
 		for i := 0; i < u.NumFields(); i++ {
 			comp, sortC, fld := vc.fieldCompOf(ty, i)
 			if isStructLike(fld.Type()) {
-				f := vc.declareFun("sub_"+comp, []string{"Int"}, "Int")
+				f := vc.subFun(comp)
 				vc.zeroStruct(st, fld.Type(), sx(f, r))
 				continue
 			}
@@ -1443,7 +1454,7 @@ func (vc *VC) copyStruct(st *State, ty types.Type, dst, src string) {
 		for i := 0; i < u.NumFields(); i++ {
 			comp, sortC, fld := vc.fieldCompOf(ty, i)
 			if isStructLike(fld.Type()) {
-				f := vc.declareFun("sub_"+comp, []string{"Int"}, "Int")
+				f := vc.subFun(comp)
 				vc.copyStruct(st, fld.Type(), sx(f, dst), sx(f, src))
 				continue
 			}
